@@ -110,6 +110,23 @@ LEVEL = {
         "and out-of-range arguments on the real class under ASan/UBSan, with in-driver oracles decode(encode c)=c, full-binary shape, "
         "harness-side LZHUF reference",
 }
+
+# second-generation L2 ties (extract/gen_*.py plug-ins), appended to the level texts
+EXTRA = {
+ "C01": "; the guards of VolFile::PrepareHeader and ReadVolHeader are re-translated from the clang AST on every run and proved equal to the model's refusal conditions for all values (C01_gen_*)",
+ "C02": "; ReadVolHeader's section-length guards re-translated from the clang AST and proved equal to the model's (C01_gen_readVolHeader_refuses)",
+ "C03": "; ClmFile::PrepareIndex / CreateArchive guards re-translated from the clang AST and proved equal to the model's refusal conditions (C03_gen_*)",
+ "C04": "; BitStreamReader (ReadNextBit, ReadNext8Bits, EndOfStream, constructor) and the loop-free members of HuffLZ (WriteCharToBuffer, GetInternalBuffer, fill guard, GetRepeatOffset) re-translated from the clang AST and proved equal to the model's steps on every state satisfying the invariant (C04_gen_*)",
+ "C07": "; the dimension guard of Map::ReadMapBeginning and CheckMinVersionTag re-translated from the clang AST and proved equal to the model's (C07_gen_*)",
+ "C08": "; ImageHeader::Validate with its helpers and the BitmapFile::Verify* checks re-translated from the clang AST and proved equal to the model's validation for all field values (C08_gen_*)",
+ "C09": "; TilesetHeader::Validate, PpalHeader::Validate and Tileset::ValidateTileset re-translated from the clang AST and proved equal to the model's guards (C09_gen_*)",
+ "C10": "; ArtFile::WriteFrame and ValidateImageMetadata guards re-translated from the clang AST and proved equal to the model's (C10_gen_*)",
+ "C11": "; the bitmap factory guards (VerifyValidBitCount, VerifyDimensions) re-translated from the clang AST and proved equal to the model's (C11_gen_create_guards)",
+ "C15": "; the tree's accessors, bounds checks and constructor arithmetic re-translated from the clang AST and proved equal to the array model (C15_gen_*)",
+ "C18": "; archive bytes proved invariant under re-spelling of the input paths (C18_vol_spelling, C18_clm_spelling); every in-process scenario repeated after a different history must give the same output",
+ "C20": "; the refusal guards of ClmFile::PrepareIndex / CreateArchive, VolFile::PrepareHeader and ArtFile::WriteFrame re-translated from the clang AST and proved equal to the model's for all values",
+}
+
 WIP = "check not built yet in this commit (work in progress; the technique applies — see DESIGN.md §6)"
 NOT_APPLICABLE = {}   # property id -> reason, for properties the technique genuinely cannot decide
 
@@ -118,6 +135,7 @@ checks = []; na = []
 for pid in props:
     has = os.path.exists(os.path.join(VERIF, "vlib", "props", pid.lower() + ".py"))
     text = LEVEL.get(pid) or (old_checks.get(pid, {}).get("level_claimed", {}).get("text"))
+    if text and pid in EXTRA and EXTRA[pid] not in text: text = text.rstrip() + EXTRA[pid]
     if has and text and pid not in NOT_APPLICABLE:
         c = dict(old_checks.get(pid, {}))
         c.update({"property_id": pid, "quick_cmd": f"./check.py {pid} --tier quick", "thorough_cmd": f"./check.py {pid} --tier thorough",
